@@ -140,6 +140,30 @@ CHECKS = {
          "tree, libosmocore gsm_utils.c) and the Python helper are stepped through FN windows (thorough: every FN) and each record is "
          "judged by TLC against the spec.",
     note="trusted: TLC, the function slicer, drv_gsmtime.c; the full product hyperframe x 63 deltas is not enumerated by TLC (stated in evidence)"),
+ "C11": dict(
+    level="model_checking", design="5 (C11)",
+    technique="TLA+ spec Mframe (task<->channel correspondence, five clauses) checked by TLC over the complete 51x26x8 frame cycle with both table sets dumped from the unmodified compiled C objects",
+    text="The firmware's mframe_sched.c is run for every frame number of the cycle with one task enabled at a time and every "
+         "tdma_schedule_set call recorded; trxcon's sched_mframe.c is dumped through l1sched_mframe_layout for all configurations x "
+         "timeslots; TLC walks all 10 608 frame numbers and checks StartsAgree, BidCyclic, LookupInTable, MaskCovers and "
+         "LayoutValidForTn in every state - a complete enumeration for the current tables.",
+    note="trusted: TLC, the task<->lchan correspondence table in the spec, drv_mframe_fw.c / drv_mframe_trx.c and the shim headers; PDTCH uplink, BCCH_EXT, PTCCH, RACH/FCCH/SCH and neighbour tasks are not part of the correspondence"),
+ "C16": dict(
+    level="exploration", design="4 (C16)",
+    technique="TLA+ spec Codec: an interpreter of protocol definitions given as data, with the C16 laws model-checked by TLC over all small definitions; generated definitions are built with the real codec classes and every to_bytes/from_bytes record is judged by TLC interpreting the same definition",
+    text="TLC checks decode(encode(v)) = v, re-encoding = canonical octets, consumed = declared length and the rejection rules over "
+         "all definitions of five small families; a seeded generator composes definitions (integers 1..8 octets with offset/multiplier, "
+         "buffers, spares, bit-field sets in both orders, nested envelopes, sequences, presence/length expressions), builds the real "
+         "classes from them and records results and exception classes; TLC interprets the same JSON and compares every record.",
+    note="exploration level: large definitions are sampled, only tiny ones are exhaustive; trusted: TLC, harness/py/codec_gen.py (builder of real classes from JSON); excluded compositions listed in evidence assumptions"),
+ "C20": dict(
+    level="model_checking", design="5 (C20)",
+    technique="TLA+ spec MobileAlloc: Decode written from 44.018 10.5.2.21 and the decoder as an explicit-state algorithm with index-bound invariants; TLC checks refinement + bounds exhaustively on a scaled universe and enumerates cases; the sliced real gsm48_decode_mobile_alloc runs under ASan/UBSan and its results and step logs are validated by TLC",
+    text="TLC proves Algorithm refines Decode and every array index stays in bounds for ARFCN 0..5, every cell allocation, bitmaps of 0..2 "
+         "scaled octets; TLC enumerates 18 688 (CA, bitmap) cases with Decode's answers which are replayed into the real function; "
+         "result records and step-level logs of ~21 k (thorough ~220 k) executions with real sizes (exact-size heap buffers, ASan+UBSan) "
+         "are validated against the spec.",
+    note="trusted: TLC, the function slicer, drv_moballoc.c, LOGP shim; outputs after a rejection are don't-care"),
 }
 
 NOT_YET = {}
